@@ -46,4 +46,16 @@ def sendN (cap : Nat) : Nat → Nat × Nat → Nat × Nat
   | 0, st => st
   | n + 1, st => sendN cap n (sendCount cap st)
 
+/-! ### The time budget of `OtlpInner::blocking_flush` across signals
+
+Each configured signal's channel is flushed with what is left of the one timeout (`timeout.saturating_sub(
+start.elapsed())`), in the order logs, traces, metrics; the first `false` is returned at once. A signal is given
+by the instant (from the start of the flush) at which its channel becomes flushed: `some t`, or `none` = never. -/
+
+/-- (result, instant at which the flush returns), started with `e` already elapsed -/
+def flushSeq (T : Nat) : List (Option Nat) → Nat → Bool × Nat
+  | [], e => (true, e)
+  | some t :: rest, e => if t ≤ T then flushSeq T rest (max e t) else (false, T)
+  | none :: _, _ => (false, T)
+
 end EmitModel.OtlpE2E
